@@ -508,3 +508,164 @@ func (w *World) EndReport(x *vs.Exec) (state string, problems []string) {
 	sort.Strings(problems)
 	return b.String(), problems
 }
+
+// Guard swallows the "setup" panic used to abort a scenario after a failed precondition.
+func Guard() {
+	if r := recover(); r != nil && r != "setup" {
+		panic(r)
+	}
+}
+
+// MustLogin logs in with valid credentials and auto-working backend, or aborts the scenario.
+func (w *World) MustLogin(name string, o LoginOpt) *Peer {
+	if o.User == "" {
+		o.User = "u" + name
+	}
+	p, _, err := w.Login(name, o)
+	if err != nil {
+		vs.Fail("setup: login %s: %v", name, err)
+		panic("setup")
+	}
+	p.AutoWork()
+	return p
+}
+
+// StdEnd is the standard End oracle: dump + leaked server-side endpoints + stuck threads become failures.
+func StdEnd(x *vs.Exec) string {
+	w, _ := x.Data.(*World)
+	if w == nil {
+		return "no world"
+	}
+	st, probs := w.EndReport(x)
+	x.Fails = append(x.Fails, probs...)
+	return st + strings.Join(x.Obs, "\n")
+}
+
+// Reg registers a proxy and renders the outcome: "ok<remoteAddr>", "err:<text>" or "noanswer".
+func (p *Peer) Reg(m *msg.NewProxy) string {
+	r := p.NewProxy(m)
+	if r == nil {
+		return "noanswer"
+	}
+	if r.Error != "" {
+		return "err:" + r.Error
+	}
+	return "ok" + r.RemoteAddr
+}
+
+// NameConsistency checks "at most one live proxy per name": the global name table and the sessions' own tables agree.
+func (w *World) NameConsistency(when string) {
+	names := map[string]int{}
+	peek.Each(peek.F(w.Svc, "ctlManager.ctlsByRunID"), func(key string, _, ctl reflect.Value) {
+		for _, n := range peek.MapKeys(peek.Walk(ctl, "proxies")) {
+			names[n]++
+		}
+	})
+	global := peek.MapKeys(peek.F(w.Svc, "pxyManager.pxys"))
+	var own []string
+	for n, c := range names {
+		if c > 1 {
+			vs.Fail("%s: proxy name %q is live in %d sessions", when, n, c)
+		}
+		own = append(own, n)
+	}
+	sort.Strings(own)
+	if fmt.Sprint(own) != fmt.Sprint(global) {
+		vs.Fail("%s: name table %v differs from the proxies owned by live sessions %v", when, global, own)
+	}
+}
+
+// ---- user-side helpers for the different accept paths ----
+
+// ReadHTTPHead reads up to the blank line of an HTTP message head (idle-aware).
+func ReadHTTPHead(u *vnet.StreamConn) (string, string) {
+	var head []byte
+	one := make([]byte, 1)
+	for !strings.HasSuffix(string(head), "\r\n\r\n") {
+		if _, idle, err := u.ReadFullOrIdle(one); idle {
+			return string(head), "no reply: system idle with the connection open"
+		} else if err != nil {
+			return string(head), "read: " + err.Error()
+		}
+		head = append(head, one[0])
+	}
+	return string(head), ""
+}
+
+// ConnectMux opens a user connection through the tcpmux (HTTP CONNECT) port.
+func (w *World) ConnectMux(src, host string, hdr string) (*vnet.StreamConn, string) {
+	u, err := w.H.DialFrom(src, fmt.Sprintf("127.0.0.1:%d", w.Cfg.TCPMuxHTTPConnectPort))
+	if err != nil {
+		return nil, "dial: " + err.Error()
+	}
+	u.Tag = "user:" + src
+	fmt.Fprintf(u, "CONNECT %s:80 HTTP/1.1\r\nHost: %s:80\r\n%s\r\n", host, host, hdr)
+	head, e := ReadHTTPHead(u)
+	if e != "" {
+		return u, "connect reply: " + e
+	}
+	if !strings.HasPrefix(head, "HTTP/1.1 200") {
+		return u, fmt.Sprintf("connect reply %q", head)
+	}
+	return u, ""
+}
+
+// Visitor opens a visitor connection to a secret proxy and returns it after the server's answer.
+func (w *World) Visitor(src string, m *msg.NewVisitorConn, sk string) (*vnet.StreamConn, string) {
+	c, err := w.H.DialFrom(src, fmt.Sprintf("127.0.0.1:%d", w.Cfg.BindPort))
+	if err != nil {
+		return nil, "dial: " + err.Error()
+	}
+	c.Tag = "visitor:" + src
+	if m.Timestamp == 0 {
+		m.Timestamp = w.Now()
+	}
+	if m.SignKey == "" {
+		m.SignKey = util.GetAuthKey(sk, m.Timestamp)
+	}
+	if err := msg.WriteMsg(c, m); err != nil {
+		return c, "write: " + err.Error()
+	}
+	var resp msg.NewVisitorConnResp
+	done := false
+	var rerr error
+	go func() { rerr = msg.ReadMsgInto(c, &resp); done = true }()
+	if !vs.BlockOrIdle("visitorresp|idle", func() bool { return done }) {
+		return c, "no answer to NewVisitorConn: system idle"
+	}
+	if rerr != nil {
+		return c, "read: " + rerr.Error()
+	}
+	if resp.Error != "" {
+		return c, "refused: " + resp.Error
+	}
+	return c, ""
+}
+
+// Echo writes payload on an established user connection and expects it back.
+func Echo(u *vnet.StreamConn, payload string) string {
+	if _, err := u.Write([]byte(payload)); err != nil {
+		return "write: " + err.Error()
+	}
+	buf := make([]byte, len(payload))
+	if _, idle, err := u.ReadFullOrIdle(buf); idle {
+		return "no reply: the system went idle with the user connection still open"
+	} else if err != nil {
+		return "read: " + err.Error()
+	}
+	if string(buf) != payload {
+		return fmt.Sprintf("echo mismatch: %q", buf)
+	}
+	return ""
+}
+
+// ServedBy returns the work records whose StartWorkConn announced src.
+func (w *World) ServedBy(src string) []*WorkRec {
+	var out []*WorkRec
+	for _, r := range w.Works {
+		if r.Src == src {
+			out = append(out, r)
+		}
+	}
+	return out
+}
